@@ -64,41 +64,41 @@ func checkC13(c *Check) {
 			}
 		}
 		// host side: Reset always asks the container — every nil return of the host's Reset has sent the reset command
-	// and received its acknowledgement (a Reset elided on a host-side "unused" belief leaves files behind whenever
-	// that belief is wrong, e.g. after an Execve that failed after the program already ran)
-	if hreset := p.Func("container", "container.Reset"); hreset == nil {
-		c.Undecided("1/reset-loop", "container.(host)Reset", "-", "function not found")
-	} else {
-		for _, step := range []string{"sendCmd", "recvAckReply"} {
-			isStep := func(in ssa.Instruction) bool {
-				ci, ok := in.(ssa.CallInstruction)
-				if !ok {
-					return false
+		// and received its acknowledgement (a Reset elided on a host-side "unused" belief leaves files behind whenever
+		// that belief is wrong, e.g. after an Execve that failed after the program already ran)
+		if hreset := p.Func("container", "container.Reset"); hreset == nil {
+			c.Undecided("1/reset-loop", "container.(host)Reset", "-", "function not found")
+		} else {
+			for _, step := range []string{"sendCmd", "recvAckReply"} {
+				isStep := func(in ssa.Instruction) bool {
+					ci, ok := in.(ssa.CallInstruction)
+					if !ok {
+						return false
+					}
+					_, callee := calleeOf(ci)
+					if callee == nil {
+						return false
+					}
+					if callee.Name() == step {
+						return true
+					}
+					// through a helper of the package (e.g. a shared send-and-await-ack function)
+					return inModule(callee) && callee.Pkg == hreset.Pkg && reachesCall(callee, 1, func(c2 ssa.CallInstruction) bool { _, c3 := calleeOf(c2); return c3 != nil && c3.Name() == step })
 				}
-				_, callee := calleeOf(ci)
-				if callee == nil {
-					return false
+				bad := ""
+				for _, b := range hreset.Blocks {
+					ret, ok := b.Instrs[len(b.Instrs)-1].(*ssa.Return)
+					if !ok || !isNilConst(retVal(ret, 0)) {
+						continue
+					}
+					if skips, trail := (pathQuery{fn: hreset, target: func(in ssa.Instruction) bool { return in == ssa.Instruction(ret) }, stop: isStep}).find(); skips {
+						bad = p.trail(trail)
+					}
 				}
-				if callee.Name() == step {
-					return true
-				}
-				// through a helper of the package (e.g. a shared send-and-await-ack function)
-				return inModule(callee) && callee.Pkg == hreset.Pkg && reachesCall(callee, 1, func(c2 ssa.CallInstruction) bool { _, c3 := calleeOf(c2); return c3 != nil && c3.Name() == step })
+				c.Cond(bad == "", "1/reset-loop", "container.(host)Reset:always-"+step, p.Pos(hreset.Pos()), "success is returned only after "+step, "the host's Reset can report success without "+step+" ("+bad+"): the container is not asked to clean up")
 			}
-			bad := ""
-			for _, b := range hreset.Blocks {
-				ret, ok := b.Instrs[len(b.Instrs)-1].(*ssa.Return)
-				if !ok || !isNilConst(retVal(ret, 0)) {
-					continue
-				}
-				if skips, trail := (pathQuery{fn: hreset, target: func(in ssa.Instruction) bool { return in == ssa.Instruction(ret) }, stop: isStep}).find(); skips {
-					bad = p.trail(trail)
-				}
-			}
-			c.Cond(bad == "", "1/reset-loop", "container.(host)Reset:always-"+step, p.Pos(hreset.Pos()), "success is returned only after "+step, "the host's Reset can report success without "+step+" ("+bad+"): the container is not asked to clean up")
 		}
-	}
-	c.Expect("1/reset-loop", 7)
+		c.Expect("1/reset-loop", 7)
 	}
 	// ---------- 2: removeContents ----------
 	if clearFn == nil {
